@@ -131,7 +131,9 @@ def build_domain(par, types_items, const_type=None):
     actions = []
     for t in tn:
         preds.append([f"needs-{t}", "?x", "-", t])
+        preds.append([f"pair-{t}", "?u", "-", "object", "?v", "-", "object", "?x", "-", t])
         funcs.append([f"lvl-{t}", "?x", "-", t])
+        funcs.append([f"w-{t}", "?u", "-", "object", "?v", "-", "object", "?x", "-", t])
         actions.append([":action", f"mark-{t}", ":parameters", [], ":precondition", ["and", ["tok"]],
                         ":effect", ["and", ["forall", ["?o", "-", t], ["when", ["and", ["tok"]], ["marked", "?o"]]]]])
         actions.append([":action", f"chk-{t}", ":parameters", [], ":precondition",
@@ -212,7 +214,11 @@ def check_rendering(ctx, par, items, tags, rng, deep):
     for a in par:
         for b in tn:
             exp = closure(par, a, b)
-            for kind, init in (("fact", [[f"needs-{b}", f"o-{a}"]]), ("fluent", [["=", [f"lvl-{b}", f"o-{a}"], "1"]])):
+            a0 = list(par)[0]
+            for kind, init in (("fact", [[f"needs-{b}", f"o-{a}"]]), ("fluent", [["=", [f"lvl-{b}", f"o-{a}"], "1"]]),
+                               # the checked argument comes after an object that occurs twice (positions must not shift)
+                               ("fact", [[f"pair-{b}", f"o-{a0}", f"o-{a0}", f"o-{a}"]]),
+                               ("fluent", [["=", [f"w-{b}", f"o-{a0}", f"o-{a0}", f"o-{a}"], "1"]])):
                 try:
                     lib.parse_problem_text(sx.plain(problem_ast(objects, init)), dom)
                     acc = True
